@@ -201,27 +201,27 @@ pub mod proofs {
         draw::reached();
         contract_table_symbol(s);
     });
+    // symbols are fixed (0x41, 0x42, EOF) so that the table is written at constant indices; their CODES are symbolic,
+    // which is what compress_impl_unsafe depends on
     harness!(bounded_huff_compress_bits_1, unwind = 26, {
         let mut table = Huffman { nodes: [NODE_SENTINEL; NUM_NODES] };
-        let b0 = draw::u8();
         let ilen = draw::usize();
         let codes = [(draw::u32(), draw::u8()), (draw::u32(), draw::u8()), (1u32, 1u8)];
         let cap = draw::usize();
         let bug = draw::bool();
         draw::assume(ilen <= 1 && cap <= 7);
         draw::reached();
-        contract_compress_bits(&mut table, [b0, 0], ilen, codes, cap, bug);
+        contract_compress_bits(&mut table, [0x41, 0x42], ilen, codes, cap, bug);
     });
     harness!(bounded_huff_compress_bits, unwind = 26, {
         let mut table = Huffman { nodes: [NODE_SENTINEL; NUM_NODES] };
-        let input = draw::bytes::<2>();
         let ilen = draw::usize();
         let codes = [(draw::u32(), draw::u8()), (draw::u32(), draw::u8()), (draw::u32(), draw::u8())];
         let cap = draw::usize();
         let bug = draw::bool();
         draw::assume(ilen <= 2 && cap <= 12);
         draw::reached();
-        contract_compress_bits(&mut table, input, ilen, codes, cap, bug);
+        contract_compress_bits(&mut table, [0x41, 0x42], ilen, codes, cap, bug);
     });
     harness!(bounded_huff_roundtrip_1, unwind = 26, {
         let input = draw::bytes::<1>();
